@@ -254,6 +254,25 @@ pub fn check_program(model: &mut Model, report: &mut Report, case: &LuauCase, co
     if !inside_hc {
         report.count("outside_census_hypothesis", 1);
     }
+    if case.check_behaviour && case.rule_name == "remove_continue" && fired {
+        // the second, loop-by-loop model of remove_continue (Rules/RemoveContinuePost.lean, the one the
+        // whole-rule behaviour theorem is about) must produce the REAL tree too, inside its hypothesis
+        if !code.contains("__DARKLUA_CONTINUE") && model.ask(&format!("c06.posthyp {}", sexp0)) == "true" {
+            let post = model.ask(&format!("c06.rule {} {}", hex("remove_continue:post".as_bytes()), sexp0));
+            report.count("remove_continue_post_model_compared", 1);
+            if post != sexp1 {
+                report.violation(Violation {
+                    kind: "correspondence".into(),
+                    check: "remove_continue:post-model".into(),
+                    what: "the loop-by-loop Lean model of remove_continue and the real rule produce different trees".into(),
+                    input: json!({"rule": case.rule_json, "code": code, "model": post, "real": sexp1}),
+                    failing_input_found: true,
+                });
+            }
+        } else {
+            report.count("remove_continue_post_model_outside_hypothesis", 1);
+        }
+    }
     if case.check_behaviour && case.rule_name == "remove_compound_assignment" && fired {
         // how much of what is generated lies inside the guard of the whole-rule theorem `compound_partial`
         // (decidable form `Compound.gB`, evaluated by the Lean driver); programs outside it are still judged
